@@ -5,6 +5,10 @@
 //	world   x={"dir":D,"dirs":[rel...],"files":{rel:content}}  build a directory tree
 //	snap    x={"dir":D,"exclude":[abs...]}                      names, kinds, sizes, mtimes, inodes, content hashes
 //	rmworld x={"dir":D}                                         remove the tree again
+//	jstart  root=R x={"waldir":D}   a light instance on root R: the real catalog, writer, query service and
+//	                                DataService wired by hand around ONE write-ahead log shared by all such
+//	                                instances of the process (kept in D, outside every world); used for the bulk of
+//	                                the C16 cases, a sample of them still goes through the generic "start"
 package main
 
 import (
@@ -15,10 +19,69 @@ import (
 	"os"
 	"path/filepath"
 	"strings"
+	"sync"
+	"sync/atomic"
 	"syscall"
+	"time"
+
+	"github.com/alpacahq/marketstore/v4/catalog"
+	"github.com/alpacahq/marketstore/v4/executor"
+	"github.com/alpacahq/marketstore/v4/frontend"
+	"github.com/alpacahq/marketstore/v4/utils"
+	"github.com/alpacahq/marketstore/v4/utils/log"
 
 	"mktsverif/drv"
+	"mktsverif/inst"
 )
+
+type jstartArgs struct {
+	WalDir string `json:"waldir"`
+}
+
+var sharedWAL *executor.WALFileType
+
+// jstart wires catalog.NewDirectory + executor.NewWriter + frontend.NewQueryService + frontend.NewDataService
+// exactly like internal/di does, but re-uses one WAL file / trigger dispatcher for the whole process.
+func jstart(c *drv.Ctx, o *drv.Op) drv.Obs {
+	a := &jstartArgs{}
+	if err := json.Unmarshal(o.X, a); err != nil {
+		return drv.Obs{"err": err.Error(), "driver_error": true}
+	}
+	log.SetLevel(log.FATAL + 1)
+	cfg := utils.NewDefaultConfig(o.Root)
+	cfg.Timezone = time.UTC
+	utils.InstanceConfig = *cfg
+	if err := os.MkdirAll(o.Root, 0o770); err != nil {
+		return drv.Obs{"err": err.Error(), "driver_error": true}
+	}
+	if sharedWAL == nil {
+		if err := os.MkdirAll(a.WalDir, 0o770); err != nil {
+			return drv.Obs{"err": err.Error(), "driver_error": true}
+		}
+		tpd := executor.StartNewTriggerPluginDispatcher(nil)
+		w, err := executor.NewWALFile(a.WalDir, time.Now().UTC().UnixNano(), &executor.NopReplicationSender{}, false,
+			&sync.WaitGroup{}, tpd, executor.NewTransactionPipe())
+		if err != nil {
+			return drv.Obs{"err": err.Error(), "driver_error": true}
+		}
+		sharedWAL = w
+	}
+	root, _ := filepath.Abs(o.Root)
+	cat, _ := catalog.NewDirectory(root) // a new root has no category_name file yet: same tolerance as internal/di
+	if cat == nil {
+		return drv.Obs{"err": "no catalog", "driver_error": true}
+	}
+	writer, err := executor.NewWriter(cat, sharedWAL)
+	if err != nil {
+		return drv.Obs{"err": err.Error(), "driver_error": true}
+	}
+	meta := executor.NewInstanceSetup(cat, sharedWAL)
+	qs := frontend.NewQueryService(cat)
+	c.In = &inst.Instance{Root: root, Cat: cat, WAL: sharedWAL, Writer: writer, Query: qs, Meta: meta}
+	c.In.Data = frontend.NewDataService(root, cat, nil, writer, qs)
+	atomic.StoreUint32(&frontend.Queryable, 1)
+	return drv.Obs{"ok": true}
+}
 
 type worldArgs struct {
 	Dir     string            `json:"dir"`
@@ -126,6 +189,7 @@ func init() {
 	drv.Extra["world"] = world
 	drv.Extra["snap"] = snap
 	drv.Extra["rmworld"] = rmworld
+	drv.Extra["jstart"] = jstart
 }
 
 func main() { drv.Main() }
